@@ -130,9 +130,12 @@ def copies_by_evaluation(facts, conv, adt, mpath, mt, tf):
     for c_, v in paths.flatten(got):
         if isinstance(v, Sym) and v.tag[:2] == ("ctor", "Err"):
             continue
-        if not (isinstance(v, Sym) and v.tag[:2] == ("ctor", "Ok") and len(v.tag) == 3):
+        if isinstance(v, Rec) and conv["fn"].endswith("::from") and "TryFrom" not in conv["fn"]:
+            x = v          # an infallible `From` conversion returns the value itself
+        elif not (isinstance(v, Sym) and v.tag[:2] == ("ctor", "Ok") and len(v.tag) == 3):
             return False
-        x = v.tag[2]
+        else:
+            x = v.tag[2]
         oks += 1
         for f_ in tf:
             n = f_["name"]
